@@ -321,6 +321,27 @@ func Execute(sc Scenario, pubs []*chain.Pub) (log []gate.Event, key, detail stri
 		time.Sleep(50 * time.Microsecond)
 		s.Settle()
 	}
+	if sc.Closers > 0 {
+		// "nothing to sync": the entries entry points called without a CID return at once -- and leave nothing behind that a
+		// later Close would wait for
+		for _, f := range []func() error{
+			func() error { return r.sub.SyncEntries(context.Background(), pubs[0].AddrInfo(), cid.Undef) },
+			func() error { return r.sub.SyncOneEntry(context.Background(), pubs[0].AddrInfo(), cid.Undef) },
+			func() error { return r.sub.SyncHAMTEntries(context.Background(), pubs[0].AddrInfo(), cid.Undef) },
+		} {
+			f := f
+			s.Go("entries-undef", func() { f() })
+			if !s.Settle() {
+				return s.Log, "hang", "an entries sync without a CID did not return: " + s.Hang
+			}
+		}
+		for _, g := range s.ParkedIDs() { // whatever hooks these calls stopped at (none in the code as it is)
+			if g != s.ParkedAt("w.next") && g != s.ParkedAt("d.select") {
+				s.Release(g)
+				s.Settle()
+			}
+		}
+	}
 	// environment actions, in a seeded random interleaving with goroutine releases
 	var todo []envAction
 	nextAd := make([]int, sc.Pubs)
